@@ -126,6 +126,26 @@ bool ranges(std::vector<int> const& v, std::list<int> const& l, std::deque<int> 
   return r;
 }
 
+// combinators applied to NAMED matchers (lvalues): the operand must be copied, the original stays usable
+bool named_operands() {
+  using namespace trompeloeil;
+  auto is_foo = eq(std::string("foo"));
+  auto is_three = eq(3);
+  auto not_foo = !is_foo;
+  auto not_three = !is_three;
+  auto deref_three = *is_three;
+  auto either = any_of(is_foo, std::string("bar"));
+  auto both = all_of(is_three, gt(2));
+  auto neither = none_of(is_three, lt(0));
+  std::string sv("foo");
+  int iv = 3;
+  int* pv = &iv;
+  bool r = param_matches(is_foo, std::ref(sv)) && param_matches(not_foo, std::ref(sv));
+  r &= param_matches(not_three, std::ref(iv)) && param_matches(deref_three, std::ref(pv));
+  r &= param_matches(either, std::ref(sv)) && param_matches(both, std::ref(iv)) && param_matches(neither, std::ref(iv));
+  return r;
+}
+
 void in_mocks() {
   using namespace trompeloeil;
   Mock m;
